@@ -8,6 +8,9 @@
 
 __all__ = """
 SHOW_INFORMATIONAL_MESSAGES
+check_workers
+finish_workers
+put_to_workers
 resolve_parallelism
 """.split()
 
@@ -71,3 +74,57 @@ def resolve_parallelism(parallel):
         return parallel
 
     return 1
+
+
+def check_workers(workers, queues=()):
+    """Raise an exception if any worker process has exited with an error."""
+    failed = [w for w in workers if w.exitcode is not None and w.exitcode != 0]
+
+    if not failed:
+        return
+
+    for w in workers:
+        if w.is_alive():
+            w.terminate()
+
+    for q in queues:
+        q.cancel_join_thread()
+
+    raise RuntimeError(
+        f"{len(failed)} worker process(es) failed (first exit code: "
+        f"{failed[0].exitcode}); see the traceback(s) printed above"
+    )
+
+
+def put_to_workers(queue, item, workers):
+    """Enqueue an item for the workers, without waiting forever if they have died."""
+    from queue import Full
+
+    while True:
+        try:
+            queue.put(item, True, timeout=1)
+            return
+        except Full:
+            check_workers(workers, (queue,))
+
+
+def finish_workers(queue, done_event, workers):
+    """Flush *queue*, tell the workers that no more items are coming, and wait
+    for them to exit. Raises :exc:`RuntimeError` if any worker failed."""
+    import threading
+
+    queue.close()
+
+    flusher = threading.Thread(target=queue.join_thread, daemon=True)
+    flusher.start()
+
+    while flusher.is_alive():
+        flusher.join(timeout=1)
+        check_workers(workers, (queue,))
+
+    done_event.set()
+
+    for w in workers:
+        w.join()
+
+    check_workers(workers)
